@@ -196,6 +196,13 @@ def r2_tables_describe_whole_program(ctx):
                 ok = c is not None and "CompatibilityInput" in (body.local_ty(c[0]) or "")
                 ctx.check(ok, R, "%s|%s-arg" % (body.key, name), "%s takes the locally built CompatibilityInput" % name,
                           "%s is not applied to the locally built CompatibilityInput" % name, body.loc(b2))
+    # the compute_* functions are pure functions of their input: no `&mut` parameter (a memo carried across program updates goes stale)
+    for name in ("compute_type_compatibility", "compute_param_compatibility", "compute_canonical_tuples", "compute_compatible_concrete_types"):
+        key = "quiver_core::compatibility::" + name
+        cb = F.body(key)
+        muts = [l["name"] or "_%d" % l["i"] for l in cb.locals if 0 < l["i"] <= cb.mir["argc"] and l["ty"].startswith("&mut")]
+        ctx.check(not muts, R, key + "|pure", "no mutable state flows in: the table is a function of the program alone",
+                  "%s takes mutable state (%s): results memoised across program updates describe an older program" % (name, muts), cb.loc(0))
     # merge_bytecode: update sent to all workers (loop over self.workers)
     mb = F.body("quiver_environment::environment::Environment::merge_bytecode")
     fl = Flow(mb)
